@@ -551,11 +551,12 @@ Proof.
   do 7 (try (destruct p as [p|p|]; try reflexivity)); exfalso; apply H20; reflexivity.
 Qed.
 
-Theorem message_table : forall kind, kind <> 12 -> kind <> 13 ->
+Theorem message_table : forall kind, kind <> 12 -> kind <> 13 -> kind <> 38 ->
   model_msg_nonempty kind = spec_msg_nonempty kind.
 Proof.
-  intros kind H12 H13. destruct kind as [|p|p]; try reflexivity.
-  do 5 (try (destruct p as [p|p|]; try reflexivity)); exfalso; (apply H12; reflexivity) || (apply H13; reflexivity).
+  intros kind H12 H13 H38. destruct kind as [|p|p]; try reflexivity.
+  do 7 (try (destruct p as [p|p|]; try reflexivity)); exfalso;
+    first [apply H12; reflexivity | apply H13; reflexivity | apply H38; reflexivity].
 Qed.
 
 (* ------------------------------------------------------------------ *)
